@@ -302,8 +302,9 @@ class DedicatedPortDiff(Contract):
         for side in ('old', 'new'):
             sub = gen_children(g, InterfaceSliver, side, ['sub1', 'sub2'], InterfaceInfo, 'interfaces', with_props_on=('sub1',),
                                resource_type=InterfaceType.SubInterface)
+            # the port's own labels may change as well (a combined edit): that is a LABELS change, not a sub-interface change
             port = mk_sliver(g, InterfaceSliver, f'{side}/i1', props=False, resource_type=InterfaceType.DedicatedPort,
-                             interface_info=sub)
+                             interface_info=sub, labels=mk_labels(g, f'{side}/i1') if g.choice(2, f'{side} port has labels?') == 0 else None)
             info = PObj(InterfaceInfo, {'interfaces': PDict({'i1': port})})
             slivers.append(mk_sliver(g, NetworkServiceSliver, side, props=False, resource_name='s', interface_info=info))
         return slivers, {}
@@ -318,11 +319,16 @@ class DedicatedPortDiff(Contract):
         pa = fld(fld(fld(pre.args[0], 'interface_info'), 'interfaces'), 'i1')
         pb = fld(fld(fld(pre.args[1], 'interface_info'), 'interfaces'), 'i1')
         changed = subif_differs(pa, pb)
+        own = labels_differ(fld(pa, 'labels'), fld(pb, 'labels'))
         if post.result is None:
-            return Not(changed)
+            return And(Not(changed), Not(own))
         mods = items(fld(fld(post.result, 'modified'), 'interfaces'))
         hit = [t for t in mods if fld(t[0], 'resource_name') == 'i1']
-        return And(changed, len(hit) == 1 and flag_has(hit[0][1], WhatsModifiedFlag.SUB_INTERFACES))
+        if not hit:
+            return And(Not(changed), Not(own))
+        f = hit[0][1]
+        return And(len(hit) == 1, Or(changed, own), Iff(changed, flag_has(f, WhatsModifiedFlag.SUB_INTERFACES)),
+                   Iff(own, flag_has(f, WhatsModifiedFlag.LABELS)))
 
     ensures = {'sub_interfaces_flag_iff_they_differ': lambda pre, post: DedicatedPortDiff._c(pre, post)}
 
